@@ -750,14 +750,18 @@ impl<'a> Render<'a> {
                 let rs = self.expr(r, lvl + 1);
                 let ops: String = match *op {
                     "MOD" => format!(" {} ", self.w("MOD")),
-                    "<=" => match self.ch(4) {
+                    "<=" => match self.ch(6) {
                         1 => "=<".into(),
                         2 => "< =".into(),
+                        3 => "= <".into(),
+                        4 => "<  =".into(),
                         _ => "<=".into(),
                     },
-                    ">=" => match self.ch(4) {
+                    ">=" => match self.ch(6) {
                         1 => "=>".into(),
                         2 => "> =".into(),
+                        3 => "= >".into(),
+                        4 => "=  >".into(),
                         _ => ">=".into(),
                     },
                     "<>" => match self.ch(4) {
